@@ -2,6 +2,7 @@ package ksim
 
 import (
 	"fmt"
+	autoscalingv2 "k8s.io/api/autoscaling/v2"
 	"reflect"
 	"strconv"
 	"strings"
@@ -23,6 +24,7 @@ import (
 const revKey = "pod-template-hash"
 
 var gkVS = schema.GroupKind{Group: "networking.istio.io", Kind: "VirtualService"}
+var gkHPA = schema.GroupKind{Group: "autoscaling", Kind: "HorizontalPodAutoscaler"}
 var gkConfigMap = schema.GroupKind{Group: "", Kind: "ConfigMap"}
 var gkTag = schema.GroupKind{Group: "example.io", Kind: "TrafficTag"}
 var gkDR = schema.GroupKind{Group: "networking.istio.io", Kind: "DestinationRule"}
@@ -664,6 +666,13 @@ func (o *trafficOracle) OnEnd(s *Sim) {
 		for _, a := range []string{inProgressAnno, controlAnno, v1alpha1.DeploymentStrategyAnnotation, v1beta1.OriginalDeploymentStrategyAnnotation} {
 			if _, ok := wl.GetAnnotations()[a]; ok {
 				bad("marker", "workload still carries annotation %s", a)
+			}
+		}
+		if o.sc.HPA {
+			if h, _ := s.Store.Peek(ObjKey{GK: gkHPA, NS: o.sc.NS, Name: o.sc.Name + "-hpa"}).(*autoscalingv2.HorizontalPodAutoscaler); h == nil {
+				bad("hpa", "the user's HorizontalPodAutoscaler is gone")
+			} else if h.Spec.ScaleTargetRef.Name != o.sc.Name {
+				bad("hpa", "HorizontalPodAutoscaler still points at %q instead of the workload", h.Spec.ScaleTargetRef.Name)
 			}
 		}
 		switch x := wl.(type) {
